@@ -10,7 +10,7 @@ from .values import *
 from .ops import DictView
 from .access import AccessMixin
 
-_ABSENT = object()
+_ABSENT = ABSENT
 
 EXC_TREE = {
     "BaseException": None,
@@ -175,6 +175,16 @@ class BuiltinsMixin(AccessMixin):
         kind = self.kind_of(v)
         if any(isinstance(ty, Builtin) and ty.name == "property" for ty in types) and isinstance(v, PropertyVal):
             return True
+        if isinstance(v, External) and hasattr(v, "exc_bases") and not getattr(v, "is_exc_class", False):
+            # an exception object raised by a binding: an instance of the binding's class of that name and of the builtin
+            # exception classes the stand-in says it derives from
+            for ty in types:
+                if isinstance(ty, External) and ty.name == v.name:
+                    return True
+                if isinstance(ty, ClassVal) and ty.builtin and (v.exc_bases == "*" or ty.name in v.exc_bases):
+                    return True
+            if all(isinstance(ty, (External, ClassVal)) for ty in types):
+                return False
         if isinstance(v, NTuple):
             kind = "tuple"
         elif isinstance(v, IntEnumMember):
@@ -200,6 +210,13 @@ class BuiltinsMixin(AccessMixin):
 
     def bi_issubclass(self, args, kwargs, node, frame):
         a, b = args
+        if isinstance(a, External) and getattr(a, "is_exc_class", False):
+            for ty in (list(b) if isinstance(b, tuple) else [b]):
+                if isinstance(ty, External) and ty.name == a.name:
+                    return True
+                if isinstance(ty, ClassVal) and ty.builtin and (a.exc_bases == "*" or ty.name in a.exc_bases):
+                    return True
+            return False
         if isinstance(a, ClassVal) and isinstance(b, ClassVal):
             return a.is_subclass(b)
         return Unknown("issubclass")
